@@ -229,3 +229,28 @@ theorem dsp_round_close (v : Rat) :
   have h := dsp_ratRound_close (v * 1000)
   generalize ((ratRound (v * 1000) : Int) : Rat) = r at h
   constructor <;> grind
+
+/-! ### `Display for Number` at the exact instance -/
+
+theorem dsp_abs_close (a b : Rat) (h1 : a - b ≤ 1 / 2000) (h2 : b - a ≤ 1 / 2000) :
+    Rat.abs (a - b) ≤ 1 / 2000 := by
+  show (if 0 ≤ a - b then a - b else -(a - b)) ≤ 1 / 2000
+  split <;> grind
+
+theorem dsp_errSuffix_rat (alt : Bool) (e : Rat) :
+    errSuffix alt e =
+      if alt = true ∧ 1 / 1000 < Rat.abs e then
+        ' ' :: '(' :: (FloatText.text true (roundFloat e) ++ [')'])
+      else [] := by
+  have h : Gen.ALT_ERR_MIN.rat = 1 / 1000 := by decide +kernel
+  simp only [errSuffix, rat_lt, rat_const, rat_abs, rat_abs_eq, h, Bool.and_eq_true, decide_eq_true_eq,
+    List.cons_append, List.nil_append]
+
+theorem dsp_zero_text : FloatText.text false (Arith.ofNat 0 : Rat) = ['0'] := by decide +kernel
+
+theorem dsp_display_fraction (alt : Bool) (w n d : Nat) (e : Rat) :
+    (Number.fraction w n d e : Number Rat).display alt =
+      if (Number.fraction w n d e : Number Rat).value = 0 then ['0']
+      else (fracForm false w n d).render.toList ++ errSuffix alt e := by
+  simp only [Number.display, rat_eq, rat_ofNat, decide_eq_true_eq]
+  rfl
